@@ -290,6 +290,10 @@ func c12stepCases(rng *sx.Rng, n int) {
 			}
 		}
 		d.set("unknown", dMap(dkv{unknownKey, dList(dStr(sx.Pick(rng, tok)), dInt(1))}))
+		if rng.Chance(20) {
+			// a token of a dimension the permutation lacks in an EARLIER element of a list (later ones are fine)
+			d.set("agents_list", dList(dStr("queue={{matrix.nope}}"), dStr("fine"), dStr("also fine")))
+		}
 		cs, text, err := stepFromDoc(d)
 		if err != nil {
 			oracleFail("C12", "step-rejected", sx.A(text), "a generated, well-formed command step does not load: "+err.Error())
